@@ -205,10 +205,10 @@ Proof. vm_compute. reflexivity. Qed.
 Lemma c12_rational_exact dp (a b : Q) :
   (add (Rational dp) a b == a + b)%Q /\ (sub (Rational dp) a b == a - b)%Q /\
   (mulv (Rational dp) a b == a * b)%Q /\
-  (forall r, kmul (Rational dp) a b r == a * b)%Q /\
+  (forall up, kmul (Rational dp) a b up == a * b)%Q /\
   (~ b == 0 -> exists q, divv (Rational dp) a b = Ok q /\ q == a / b)%Q /\
-  (~ b == 0 -> forall r, exists q, kdiv (Rational dp) a b r = Ok q /\ q == a / b)%Q /\
-  (forall c r, ~ c == 0 -> exists q, kmuldiv (Rational dp) a b c r = Ok q /\ q == a * b / c)%Q /\
+  (~ b == 0 -> forall up, exists q, kdiv (Rational dp) a b up = Ok q /\ q == a / b)%Q /\
+  (forall c up, ~ c == 0 -> exists q, kmuldiv (Rational dp) a b c up = Ok q /\ q == a * b / c)%Q /\
   (ltv (Rational dp) a b = true <-> a < b)%Q /\ (eqv (Rational dp) a b = true <-> a == b)%Q.
 Proof.
   assert (Z0: forall c : Q, ~ (c == 0)%Q -> qz c = false).
